@@ -327,8 +327,19 @@ impl Model for RefStore {
 
     fn step(&self, st: &MState, op: &MOp, res: Option<&MRes>) -> Vec<MState> {
         let Some(res) = res else {
-            // pending op: C07 runs have none; be permissive
-            return vec![st.clone()];
+            // unknown outcome (an injected failure reported after the write may
+            // have landed): an overwriting put either committed - under a token
+            // nobody has seen yet - or did nothing
+            return match op {
+                MOp::Put { key, bytes, mode: MMode::Overwrite } => {
+                    let mut v = vec![st.clone()];
+                    if let Some(n) = self.commit(st, *key, bytes.clone(), None) {
+                        v.push(n);
+                    }
+                    v
+                }
+                _ => vec![st.clone()],
+            };
         };
         let one = |o: Option<MState>| o.into_iter().collect::<Vec<_>>();
         let same = || vec![st.clone()];
@@ -722,6 +733,23 @@ pub struct Case {
     pub clock: ClockMode,
     pub schedule: Schedule,
     pub list_page: u32,
+    /// one overwriting put of the sequential prefix (by index) fails at its
+    /// `call`-th backend call: after the call was applied (unknown outcome) or before it
+    #[serde(default)]
+    pub fault: Option<(usize, u64, bool)>,
+}
+
+impl Case {
+    /// A quarter of the purely sequential wrapper runs fail one overwriting put.
+    fn with_fault(mut self, rng: &mut Rng, bare: bool) -> Case {
+        if !bare && self.clients.is_empty() && rng.chance(1, 4) {
+            let puts: Vec<usize> = self.prefix.iter().enumerate().filter(|(_, g)| matches!(g, GOp::Put { mode: GMode::Overwrite, .. })).map(|(i, _)| i).collect();
+            if !puts.is_empty() {
+                self.fault = Some((*rng.pick(&puts), rng.below(4), rng.chance(3, 4)));
+            }
+        }
+        self
+    }
 }
 
 pub struct H {
@@ -801,6 +829,10 @@ impl Exec {
         });
     }
 
+    fn push_unknown(&self, client: usize, invoke: u64, ret: u64, op: MOp) {
+        self.hist.lock().unwrap().push(Event { client, invoke, ret: Some(ret), op, res: None });
+    }
+
     async fn run_op(&self, client: usize, mem: &mut ClientMem, g: &GOp) {
         let s = self.store.as_ref();
         let inv = self.sim.tick();
@@ -837,6 +869,11 @@ impl Exec {
                     Ok(p) => {
                         mem.note(*key, &p.e_tag, None);
                         MRes::Put { etag: p.e_tag, version_reported: p.version.is_some() }
+                    }
+                    Err(e) if simcore::store::is_injected(&e) && matches!(mmode, MMode::Overwrite) => {
+                        self.sim.note_fired("put_failed_with_unknown_outcome");
+                        self.push_unknown(client, inv, ret, MOp::Put { key: *key, bytes, mode: mmode });
+                        return;
                     }
                     Err(e) => MRes::Err(ek(&e)),
                 };
@@ -1301,7 +1338,9 @@ impl Harness for H {
             },
             schedule: Schedule::Seeded { seed: rng.next_u64(), policy },
             list_page: *rng.pick(&[0u32, 0, 1, 2]),
+            fault: None,
         }
+        .with_fault(&mut rng, self.bare)
     }
 
     fn entropy_seed(&self, case: &Case) -> u64 {
@@ -1328,12 +1367,20 @@ impl Harness for H {
         };
         // sequential prefix
         let mut mem0 = ClientMem::default();
-        for g in &case.prefix {
+        for (gi, g) in case.prefix.iter().enumerate() {
             if *g == GOp::Recache {
                 ex.store = self.build_store(case, &store);
                 continue;
             }
-            block(ex.run_op(0, &mut mem0, g));
+            match &case.fault {
+                Some((at, call, after)) if *at == gi && matches!(g, GOp::Put { mode: GMode::Overwrite, .. }) => {
+                    let kind = if *after { simcore::sim::FaultKind::FailAfter } else { simcore::sim::FaultKind::FailBefore };
+                    sim.set_faults(vec![simcore::sim::FaultSpec { site: simcore::sim::Site::Call(sim.calls() + call), kind }]);
+                    block(ex.run_op(0, &mut mem0, g));
+                    sim.clear_faults();
+                }
+                _ => block(ex.run_op(0, &mut mem0, g)),
+            }
         }
         // concurrent clients
         if !case.clients.is_empty() {
